@@ -215,3 +215,8 @@ def run(rep, tier, seed):
     rep.assume("exact binomial acceptance regions, Bonferroni over all cells: false alarm < 1e-8 per run")
     rep.rule("mechanism: %d random event models x 3-4 exact runs, every step's draws validated by TLC; law: SIR "
              "final size and linear-chain occupancy against exact laws" % n)
+
+
+def selftest(seed):
+    from checks import selftest as st
+    return st.run([st.jump])
